@@ -18,6 +18,10 @@ ASSUMPTIONS = ['os.path.join keeps an absolute second argument (so only V matter
 MINIMUM = {'R20.1': 6, 'R20.2': 3, 'R20.3': 8, 'R20.4': 4, 'R20.5': 2}
 
 
+# rules of sibling properties that are necessary conditions of this one too
+# (evaluated by the sibling module on the same graphs, reported under this property)
+ALSO = {'C12': {'R12.2': 'trash-rm matches the very path trash-list prints'}}
+
 def dir_kind(D):
     kinds = set()
     for d in flat(D):
@@ -105,7 +109,7 @@ def check(ctx):
                        message='%s: the %s transforms the decoded Path (%s) before joining it '
                                'to the base; the sibling readers do not'
                                % (cmd, what, short(P, 100)))
-                for o in [y for y in walk(P) if isinstance(y, Call) and y.fn == 'open']:
+                for o in [y for y in walk(P) if isinstance(y, Call) and y.fn in ('open', 'io.open', 'codecs.open')]:
                     for ia in flat(o.args[0]):
                         D = info_entry(ia)
                         if D is not None:
